@@ -4,3 +4,4 @@
 #define VH_W 8
 #include "vh_bits.inc"
 void (*const vh_bits_set_8)(const VhLine *) = op_bits_set_8;
+void (*const vh_bits_far_8)(const VhLine *) = op_bits_far_8;
